@@ -4,6 +4,7 @@ from sa.lib import *
 from rules import ledger
 from sa.forward import Forward
 
+TECHNIQUE = "static analysis (ast): forward abstract interpretation of Broker.transact / marking_to_market / holdings_values / Trade.__init__ / commissions to polynomial value ids, compared with the property's ledger equations; sign tables by evaluation under sign assumptions; CFG-dominance ordering and who-may-write (ownership / aliasing) rules"
 EXPLANATION = (
     "Decides the bookkeeping skeleton of the NLV identity, not the identity over histories. Symbolic ledger equations (value-id / polynomial "
     "domain, no execution): (S1) Trade.notional / cost_of_cash / cost_of_spread, BrokerFees.commissions and the notional / liquidation "
